@@ -10,8 +10,8 @@
 use num_complex::Complex64;
 use quil_rs::expression::{Expression, PrefixOperator};
 use quil_rs::instruction::{
-    ArithmeticOperand, AttributeValue, BinaryOperand, ComparisonOperand, GateSpecification, Instruction,
-    PragmaArgument, Qubit, UnresolvedCallArgument,
+    ArithmeticOperand, AttributeValue, BinaryOperand, ComparisonOperand, ExternParameterType, ExternSignature,
+    FrameIdentifier, GateSpecification, Instruction, MemoryReference, PragmaArgument, Qubit, UnresolvedCallArgument,
 };
 use quil_rs::Program;
 use qvh::lexwire::{all_strings, lex_case};
@@ -65,6 +65,50 @@ const POSITIONS: &[(&str, &str, &str, &str)] = &[
     ("memindexexpr", "nat", "RX(theta[", "]) 0"),
     ("measuretarget", "nat", "MEASURE 0 ro[", "]"),
     ("sharingoffset", "nat", "DECLARE x BIT[2] SHARING y OFFSET ", " BIT"),
+    // rarer instruction kinds and further syntactic variants
+    ("setscale", "expr", "SET-SCALE 0 \"f\" ", ""),
+    ("setphase", "expr", "SET-PHASE 0 1 \"f\" ", ""),
+    ("shiftfreq", "expr", "SHIFT-FREQUENCY 0 \"f\" ", ""),
+    ("delaynoframe", "expr", "DELAY 0 ", ""),
+    ("delay2q", "expr", "DELAY 0 1 \"f\" \"g\" ", ""),
+    ("nbrawcapture", "expr", "NONBLOCKING RAW-CAPTURE 0 \"f\" ", " ro[1]"),
+    ("capturewfparam", "expr", "CAPTURE 0 \"f\" w(a: 1, b: ", ") ro"),
+    ("forkedparam", "expr", "FORKED DAGGER RX(1, ", ") 0 1"),
+    ("defgatematrix11", "expr", "DEFGATE G(%a) AS MATRIX:\n\t1, 0\n\t0, ", ""),
+    ("paulitermcoeff", "expr", "DEFGATE G(%t) q AS PAULI-SUM:\n\tX(", ") q"),
+    ("seqgateparam", "expr", "DEFGATE G q AS SEQUENCE:\n\tRX(", ") q"),
+    ("declarelenbit", "nat", "DECLARE x BIT[", "]"),
+    ("declarelenoctet", "nat", "DECLARE x OCTET[", "] SHARING y"),
+    ("declarelenint", "nat", "DECLARE x INTEGER[", "]"),
+    ("sharingoffset2", "nat", "DECLARE x BIT[2] SHARING y OFFSET 1 REAL ", " OCTET"),
+    ("pulsequbit", "nat", "PULSE ", " \"f\" w"),
+    ("pulsequbit2", "nat", "NONBLOCKING PULSE 0 ", " \"f\" w"),
+    ("fencequbit", "nat", "FENCE 0 ", ""),
+    ("resetqubit", "nat", "RESET ", ""),
+    ("defcalqubit", "nat", "DEFCAL X ", ":\n\tNOP"),
+    ("defcalmeasurequbit", "nat", "DEFCAL MEASURE ", " t:\n\tNOP"),
+    ("defframequbit", "nat", "DEFFRAME ", " \"f\":\n\tDIRECTION: \"tx\""),
+    ("swapphasesqubit", "nat", "SWAP-PHASES 0 \"f\" ", " \"g\""),
+    ("loadoffsetindex", "nat", "LOAD a b c[", "]"),
+    ("jumpwhenindex", "nat", "JUMP-WHEN @l ro[", "]"),
+    ("convertindex", "nat", "CONVERT a[", "] b"),
+    ("exchangeindex", "nat", "EXCHANGE a b[", "]"),
+    ("callmemindex", "nat", "CALL f x[", "]"),
+    ("pragmaarg3", "nat", "PRAGMA name 1 a ", " b 2"),
+    ("permutation4", "nat", "DEFGATE P AS PERMUTATION:\n\t0, 1, 2, ", ""),
+    // operands inside definition bodies (name = in-<container>-<base position>)
+    ("in-defcal-move", "arith", "DEFCAL X 0:\n\tMOVE ro[0] ", ""),
+    ("in-defcircuit-add", "arith", "DEFCIRCUIT C:\n\tADD ro ", ""),
+    ("in-defcalmeasure-and", "logic", "DEFCAL MEASURE 0 t:\n\tAND t ", ""),
+    ("in-defcal-eq", "cmp", "DEFCAL X 0:\n\tEQ a b ", ""),
+    ("in-defcircuit-gateparam", "expr", "DEFCIRCUIT C q:\n\tRX(", ") 0"),
+    ("in-defcal-call", "imm", "DEFCAL X 0:\n\tCALL f ", ""),
+    ("in-defcal-pragmaarg", "nat", "DEFCAL X 0:\n\tPRAGMA name ", ""),
+    // the other public FromStr entry points
+    ("fromstr-expression", "expr", "", ""),
+    ("fromstr-memref", "nat", "ro[", "]"),
+    ("fromstr-frameid", "nat", "0 ", " \"f\""),
+    ("fromstr-externsig", "nat", "(a : REAL[", "])"),
 ];
 
 fn arith(op: &ArithmeticOperand) -> Sexp {
@@ -115,9 +159,29 @@ fn qubit(q: &Qubit) -> Sexp {
 
 /// Read the operand back from the parsed program; `(other)` when the program does not have the
 /// template's shape (extra instructions, a different operand kind, …).
-fn extract(pos: &str, p: &Program) -> Sexp {
+fn extract(pos: &str, is: &[Instruction]) -> Sexp {
     let other = || tagged("other", vec![]);
-    let is = p.to_instructions();
+    if is.len() != 1 {
+        return other();
+    }
+    // positions inside a definition body: look at the body's single instruction
+    let inner: Vec<Instruction>;
+    let (pos, is): (&str, &[Instruction]) = match (pos.strip_prefix("in-"), &is[0]) {
+        (Some(rest), Instruction::CalibrationDefinition(c)) => {
+            inner = c.instructions.clone();
+            (rest.split_once('-').map(|x| x.1).unwrap_or(rest), &inner[..])
+        }
+        (Some(rest), Instruction::MeasureCalibrationDefinition(c)) => {
+            inner = c.instructions.clone();
+            (rest.split_once('-').map(|x| x.1).unwrap_or(rest), &inner[..])
+        }
+        (Some(rest), Instruction::CircuitDefinition(c)) => {
+            inner = c.instructions.clone();
+            (rest.split_once('-').map(|x| x.1).unwrap_or(rest), &inner[..])
+        }
+        (Some(_), _) => return other(),
+        (None, _) => (pos, is),
+    };
     if is.len() != 1 {
         return other();
     }
@@ -194,6 +258,69 @@ fn extract(pos: &str, p: &Program) -> Sexp {
             Some(t) => tagged("nat", vec![nat(t.index)]),
             None => other(),
         },
+        ("setscale", Instruction::SetScale(x)) => expr(&x.scale),
+        ("setphase", Instruction::SetPhase(x)) => expr(&x.phase),
+        ("shiftfreq", Instruction::ShiftFrequency(x)) => expr(&x.frequency),
+        ("delaynoframe", Instruction::Delay(d)) if d.qubits.len() == 1 && d.frame_names.is_empty() => expr(&d.duration),
+        ("delay2q", Instruction::Delay(d)) if d.qubits.len() == 2 && d.frame_names.len() == 2 => expr(&d.duration),
+        ("nbrawcapture", Instruction::RawCapture(r)) if !r.blocking => expr(&r.duration),
+        ("capturewfparam", Instruction::Capture(c)) if c.waveform.parameters.len() == 2 => {
+            c.waveform.parameters.get("b").map(expr).unwrap_or_else(other)
+        }
+        ("forkedparam", Instruction::Gate(g)) if g.parameters.len() == 2 && g.modifiers.len() == 2 => expr(&g.parameters[1]),
+        ("defgatematrix11", Instruction::GateDefinition(g)) => match &g.specification {
+            GateSpecification::Matrix(m) if m.len() == 2 && m[1].len() == 2 => expr(&m[1][1]),
+            _ => other(),
+        },
+        ("paulitermcoeff", Instruction::GateDefinition(g)) => match &g.specification {
+            GateSpecification::PauliSum(p) if p.terms.len() == 1 => expr(&p.terms[0].expression),
+            _ => other(),
+        },
+        ("seqgateparam", Instruction::GateDefinition(g)) => match &g.specification {
+            GateSpecification::Sequence(seq) => {
+                let (_, gates) = quil_rs::verif_hooks::c01::def_gate_sequence_parts(seq);
+                match gates {
+                    [g1] if g1.parameters.len() == 1 => expr(&g1.parameters[0]),
+                    _ => other(),
+                }
+            }
+            _ => other(),
+        },
+        ("declarelenbit" | "declarelenoctet" | "declarelenint", Instruction::Declaration(d)) => {
+            tagged("nat", vec![nat(d.size.length)])
+        }
+        ("sharingoffset2", Instruction::Declaration(d)) => match &d.sharing {
+            Some(s) if s.offsets.len() == 2 => tagged("nat", vec![nat(s.offsets[1].offset)]),
+            _ => other(),
+        },
+        ("pulsequbit", Instruction::Pulse(p)) if p.frame.qubits.len() == 1 => qubit(&p.frame.qubits[0]),
+        ("pulsequbit2", Instruction::Pulse(p)) if p.frame.qubits.len() == 2 => qubit(&p.frame.qubits[1]),
+        ("fencequbit", Instruction::Fence(f)) if f.qubits.len() == 2 => qubit(&f.qubits[1]),
+        ("resetqubit", Instruction::Reset(r)) => r.qubit.as_ref().map(qubit).unwrap_or_else(other),
+        ("defcalqubit", Instruction::CalibrationDefinition(c)) if c.identifier.qubits.len() == 1 => {
+            qubit(&c.identifier.qubits[0])
+        }
+        ("defcalmeasurequbit", Instruction::MeasureCalibrationDefinition(c)) => qubit(&c.identifier.qubit),
+        ("defframequbit", Instruction::FrameDefinition(f)) if f.identifier.qubits.len() == 1 => {
+            qubit(&f.identifier.qubits[0])
+        }
+        ("swapphasesqubit", Instruction::SwapPhases(sw)) if sw.frame_2.qubits.len() == 1 => qubit(&sw.frame_2.qubits[0]),
+        ("loadoffsetindex", Instruction::Load(l)) => tagged("nat", vec![nat(l.offset.index)]),
+        ("jumpwhenindex", Instruction::JumpWhen(j)) => tagged("nat", vec![nat(j.condition.index)]),
+        ("convertindex", Instruction::Convert(c)) => tagged("nat", vec![nat(c.destination.index)]),
+        ("exchangeindex", Instruction::Exchange(e)) => tagged("nat", vec![nat(e.right.index)]),
+        ("callmemindex", Instruction::Call(c)) if c.arguments.len() == 1 => match &c.arguments[0] {
+            UnresolvedCallArgument::MemoryReference(m) => tagged("nat", vec![nat(m.index)]),
+            _ => other(),
+        },
+        ("pragmaarg3", Instruction::Pragma(pr)) if pr.arguments.len() == 5 => match &pr.arguments[2] {
+            PragmaArgument::Integer(n) => tagged("nat", vec![nat(*n)]),
+            _ => other(),
+        },
+        ("permutation4", Instruction::GateDefinition(g)) => match &g.specification {
+            GateSpecification::Permutation(v) if v.len() == 4 => tagged("nat", vec![nat(v[3])]),
+            _ => other(),
+        },
         ("sharingoffset", Instruction::Declaration(d)) => match &d.sharing {
             Some(s) if s.offsets.len() == 1 => tagged("nat", vec![nat(s.offsets[0].offset)]),
             _ => other(),
@@ -225,10 +352,91 @@ fn pos_case(ctx: &mut Ctx, pos: &'static (&'static str, &'static str, &'static s
     let (name, kind, pre, post) = *pos;
     let text = format!("{pre}{spelling}{post}");
     let input = tagged("pos", vec![atom(name), atom(kind), st(spelling), std_bits(spelling)]);
-    ctx.case(input, move || match Program::from_str(&text) {
-        Ok(p) => extract(name, &p),
-        Err(_) => tagged("err", vec![]),
+    ctx.case(input, move || {
+        if let Some(entry) = name.strip_prefix("fromstr-") {
+            return from_str_entry(entry, &text);
+        }
+        // program-level entry point
+        let prog = Program::from_str(&text);
+        if let Err(e) = &prog {
+            format_error(e);
+        }
+        let out1 = match &prog {
+            Ok(p) => extract(name, &p.to_instructions()),
+            Err(_) => tagged("err", vec![]),
+        };
+        // sibling entry point: a single instruction
+        let instr = Instruction::from_str(&text);
+        if let Err(e) = &instr {
+            format_error(e);
+        }
+        let consistent = match (&prog, &instr) {
+            (Ok(p), Ok(i)) => {
+                let is = p.to_instructions();
+                is.len() == 1 && is[0] == *i && format!("{:?}", is[0]) == format!("{i:?}")
+            }
+            (Ok(p), Err(_)) => p.to_instructions().len() != 1,
+            (Err(_), Ok(_)) => false,
+            (Err(_), Err(_)) => true,
+        };
+        if consistent {
+            out1
+        } else {
+            tagged("mismatch", vec![out1, st(format!("{instr:?}"))])
+        }
     });
+}
+
+/// Format an error every way a caller might: a panic in there is a crash.
+fn format_error<E: std::error::Error>(e: &E) {
+    let _ = e.to_string();
+    let _ = format!("{e:#}");
+    let _ = format!("{e:?}");
+    let mut src = e.source();
+    while let Some(s) = src {
+        let _ = s.to_string();
+        src = s.source();
+    }
+}
+
+/// The other public `FromStr` entry points that read a numeric literal.
+fn from_str_entry(entry: &str, text: &str) -> Sexp {
+    let err = || tagged("err", vec![]);
+    match entry {
+        "expression" => match Expression::from_str(text) {
+            Ok(e) => expr(&e),
+            Err(e) => {
+                format_error(&e);
+                err()
+            }
+        },
+        "memref" => match MemoryReference::from_str(text) {
+            Ok(m) => tagged("nat", vec![nat(m.index)]),
+            Err(e) => {
+                format_error(&e);
+                err()
+            }
+        },
+        "frameid" => match FrameIdentifier::from_str(text) {
+            Ok(f) if f.qubits.len() == 2 => qubit(&f.qubits[1]),
+            Ok(_) => tagged("other", vec![]),
+            Err(e) => {
+                format_error(&e);
+                err()
+            }
+        },
+        "externsig" => match ExternSignature::from_str(text) {
+            Ok(sig) => match sig.parameters().first().map(|p| p.data_type()) {
+                Some(ExternParameterType::FixedLengthVector(v)) => tagged("nat", vec![nat(v.length)]),
+                _ => tagged("other", vec![]),
+            },
+            Err(e) => {
+                format_error(&e);
+                err()
+            }
+        },
+        _ => unreachable!(),
+    }
 }
 
 fn all_positions(ctx: &mut Ctx, spelling: &str) {
@@ -397,6 +605,141 @@ fn float_spellings(quick: bool) -> Vec<String> {
     out
 }
 
+/// sign forms the grammar rejects or lexes apart, and imaginary forms of every boundary integer
+fn sign_and_imaginary_spellings() -> Vec<String> {
+    let mut out = Vec::new();
+    for body in ["1", "1.5", "0x10", "9223372036854775808", "1e5", "1i", "2.5i"] {
+        for sign in ["--", "-+", "+-", "++", "- ", "-  ", "+ ", "-\t"] {
+            out.push(format!("{sign}{body}"));
+        }
+    }
+    for &v in BOUNDARY {
+        for radix in [10u32, 16, 2] {
+            let d = format!("{}{}", prefix(radix, false), to_radix(v, radix, false));
+            out.push(format!("{d}i"));
+            out.push(format!("-{d}i"));
+            out.push(format!("{d} i"));
+            out.push(format!("{d}_i"));
+        }
+    }
+    for f in ["1.5i", "-1.5i", "1e308i", "1e309i", "4.9e-324i", "9007199254740993.0i", ".5i", "5.i", "1_0.2_5i", "1e1_0i", "1ii", "1.5ii", "1i2", "1.5i.5"] {
+        out.push(f.to_string());
+    }
+    out
+}
+
+/// exact halfway points between adjacent doubles at the subnormal / normal / overflow borders, written
+/// with 17..25 significant digits (truncated = just below or exactly the tie, +1 in the last place = above)
+fn halfway_spellings(quick: bool) -> Vec<String> {
+    // (bits of the lower neighbour)
+    let lows: &[u64] = &[
+        0x0000_0000_0000_0000, // 0 .. min subnormal
+        0x0000_0000_0000_0001,
+        0x000F_FFFF_FFFF_FFFE, // around the largest subnormal
+        0x000F_FFFF_FFFF_FFFF, // largest subnormal .. smallest normal
+        0x0010_0000_0000_0000,
+        0x3FEF_FFFF_FFFF_FFFF, // just below 1
+        0x3FF0_0000_0000_0000,
+        0x4330_0000_0000_0000, // 2^52
+        0x433F_FFFF_FFFF_FFFF, // below 2^53
+        0x4340_0000_0000_0000, // 2^53 (ulp 2)
+        0x43E0_0000_0000_0000, // 2^63
+        0x43EF_FFFF_FFFF_FFFF,
+        0x7FEF_FFFF_FFFF_FFFE,
+        0x7FEF_FFFF_FFFF_FFFF, // max .. 2^1024 (the overflow border)
+    ];
+    let mut out = Vec::new();
+    for &lo in lows {
+        // value of the tie = (2*m + 1) * 2^(e-1) with lo = m * 2^e; computed as an exact decimal string
+        let tie = exact_tie_decimal(lo);
+        let (digits, exp10) = tie; // digits without point, value = 0.d1d2... * 10^exp10
+        let lens: Vec<usize> = if quick { vec![17, 19, 20, 25] } else { (17..=25).collect() };
+        for len in lens {
+            let mut d: Vec<u8> = digits.bytes().take(len).collect();
+            while d.len() < len {
+                d.push(b'0');
+            }
+            let base = String::from_utf8(d.clone()).unwrap();
+            // bump the last digit (no carry handling needed when it is < 9)
+            let mut up = d.clone();
+            if let Some(l) = up.last_mut() {
+                if *l < b'9' {
+                    *l += 1;
+                }
+            }
+            let up = String::from_utf8(up).unwrap();
+            for m in [base, up] {
+                out.push(format!("0.{m}e{exp10}"));
+                out.push(format!("{}.{}e{}", &m[..1], &m[1..], exp10 - 1));
+                out.push(format!("{}.{}e{}_", &m[..1], &m[1..], exp10 - 1));
+            }
+        }
+        // the full exact tie (hundreds of digits): must round to even
+        out.push(format!("0.{digits}e{exp10}"));
+        out.push(format!("0.{digits}1e{exp10}"));
+    }
+    out
+}
+
+/// exact decimal expansion of the midpoint between the double with bits `lo` and its successor:
+/// (digits, exp10) with value = 0.digits * 10^exp10
+fn exact_tie_decimal(lo: u64) -> (String, i32) {
+    let exp_field = ((lo >> 52) & 0x7FF) as i32;
+    let frac = lo & 0x000F_FFFF_FFFF_FFFF;
+    let (m, e) = if exp_field == 0 { (frac, -1074) } else { (frac | (1 << 52), exp_field - 1075) };
+    // tie = (2m + 1) * 2^(e - 1)
+    let mut num: Vec<u32> = to_base1e9((2 * m + 1) as u128);
+    let e2 = e - 1;
+    let mut dec_shift = 0i32;
+    if e2 >= 0 {
+        for _ in 0..e2 {
+            mul_small(&mut num, 2);
+        }
+    } else {
+        // multiply by 5^(-e2) and shift the decimal point by -e2 places
+        for _ in 0..(-e2) {
+            mul_small(&mut num, 5);
+        }
+        dec_shift = e2;
+    }
+    let s = big_to_string(&num);
+    let exp10 = s.len() as i32 + dec_shift;
+    (s.trim_end_matches('0').to_string(), exp10)
+}
+fn to_base1e9(mut v: u128) -> Vec<u32> {
+    let mut out = Vec::new();
+    while v > 0 {
+        out.push((v % 1_000_000_000) as u32);
+        v /= 1_000_000_000;
+    }
+    if out.is_empty() {
+        out.push(0);
+    }
+    out
+}
+fn mul_small(n: &mut Vec<u32>, k: u32) {
+    let mut carry = 0u64;
+    for limb in n.iter_mut() {
+        let v = *limb as u64 * k as u64 + carry;
+        *limb = (v % 1_000_000_000) as u32;
+        carry = v / 1_000_000_000;
+    }
+    if carry > 0 {
+        n.push(carry as u32);
+    }
+}
+fn big_to_string(n: &[u32]) -> String {
+    let mut s = String::new();
+    for (k, limb) in n.iter().rev().enumerate() {
+        if k == 0 {
+            s.push_str(&limb.to_string());
+        } else {
+            s.push_str(&format!("{limb:09}"));
+        }
+    }
+    s
+}
+
 fn random_digits(rng: &mut Rng, radix: u32, len: u64) -> String {
     (0..len).map(|_| char::from_digit(rng.below(radix as u64) as u32, radix).unwrap()).collect()
 }
@@ -549,9 +892,19 @@ fn run(ctx: &mut Ctx) {
     // 3. literal spellings in every operand position
     let ints = integer_spellings(quick);
     let floats = float_spellings(quick);
-    for s in ints.iter().chain(floats.iter()) {
+    let extra = sign_and_imaginary_spellings();
+    for s in ints.iter().chain(floats.iter()).chain(extra.iter()) {
         lex_case(ctx, s);
         all_positions(ctx, s);
+    }
+    // halfway cases at the subnormal / normal / overflow borders: lexer + a few positions of each kind
+    for s in halfway_spellings(quick) {
+        lex_case(ctx, &s);
+        for name in ["move", "eq", "fromstr-expression", "gateparam", "call", "frameattr", "delaynoframe"] {
+            let pos = POSITIONS.iter().find(|p| p.0 == name).unwrap();
+            pos_case(ctx, pos, &s);
+            pos_case(ctx, pos, &format!("-{s}"));
+        }
     }
     // 4. seeded random spellings, valid and mutated, random positions + lexer
     let mut rng = ctx.rng(5);
